@@ -140,26 +140,39 @@ func (r *Replayer) reproduces(spec RunSpec, v Violation, known map[string]bool) 
 	if v.Kind == "budget" {
 		timeout = 5 * time.Second
 	}
-	out, passed, err := r.run(spec, v.Trace, known, v.Kind == "race", "", timeout)
-	if err != nil {
-		return false, err.Error()
+	// outcomes that depend on the (randomised) native map iteration order may need several attempts
+	attempts := 1
+	if spec.Opts.PermuteRange || spec.Opts.Sched != "" {
+		attempts = 40
 	}
-	if passed {
-		return false, out
-	}
-	switch v.Kind {
-	case "assert":
-		return strings.Contains(out, "VERIF-ASSERT-FAILED "+v.Label), out
-	case "panic":
-		return strings.Contains(out, "panic:") && !strings.Contains(out, "VERIF-ASSERT-FAILED") && !strings.Contains(out, "VERIF-TRACE-EXHAUSTED") && !strings.Contains(out, "test timed out"), out
-	case "budget":
-		return strings.Contains(out, "test timed out"), out
-	case "race":
-		return strings.Contains(out, "DATA RACE"), out
-	case "deadlock":
-		return strings.Contains(out, "all goroutines are asleep") || strings.Contains(out, "test timed out"), out
+	var out string
+	for a := 0; a < attempts; a++ {
+		o, passed, err := r.run(spec, v.Trace, known, v.Kind == "race", "", timeout)
+		if err != nil {
+			return false, err.Error()
+		}
+		out = o
+		if !passed && r.matches(v, o) {
+			return true, o
+		}
 	}
 	return false, out
+}
+
+func (r *Replayer) matches(v Violation, out string) bool {
+	switch v.Kind {
+	case "assert":
+		return strings.Contains(out, "VERIF-ASSERT-FAILED "+v.Label)
+	case "panic":
+		return strings.Contains(out, "panic:") && !strings.Contains(out, "VERIF-ASSERT-FAILED") && !strings.Contains(out, "VERIF-TRACE-EXHAUSTED") && !strings.Contains(out, "test timed out")
+	case "budget":
+		return strings.Contains(out, "test timed out")
+	case "race":
+		return strings.Contains(out, "DATA RACE")
+	case "deadlock":
+		return strings.Contains(out, "all goroutines are asleep") || strings.Contains(out, "test timed out")
+	}
+	return false
 }
 
 func (w *World) replayNative(spec RunSpec, v Violation, known map[string]bool) (bool, string) {
